@@ -1,0 +1,12 @@
+//go:build verif
+
+// Ghost lemma functions read by /verif/govc: the bodies are empty, the contracts (contracts_verif.go) are proved from
+// the definitions of the predicates they mention. Never called; excluded from every build without the tag `verif`.
+
+package termincommittee
+
+import "github.com/orbs-network/lean-helix-go/services/interfaces"
+
+// L11: a PREPARE / COMMIT emitted by correct node a is acceptable to correct peer b of the same committee
+func lemmaC11Prepare(a, b *TermInCommittee, pm *interfaces.PrepareMessage) {}
+func lemmaC11Commit(a, b *TermInCommittee, cm *interfaces.CommitMessage)   {}
